@@ -9,15 +9,15 @@ import (
 
 // pureFuncs: module callees that write none of their arguments (cross-checked against engine M's write summaries).
 var pureFuncs = map[string]bool{
-	"internal/ge25519.IsNeutralVartime":      true,
-	"internal/ge25519.CofactorEqual":         true,
-	"internal/modm.LessThanVartime":          true,
-	"internal/modm.LessThanOrEqualVartime":   true,
-	"internal/modm.IsZeroVartime":            true,
-	"internal/modm.IsOneVartime":             true,
-	"internal/modm.IsAtMost128bitsVartime":   true,
-	"internal/ge25519.windowbEqual":          true,
-	"extra/x25519.checkBasepoint":            true,
+	"internal/ge25519.IsNeutralVartime":    true,
+	"internal/ge25519.CofactorEqual":       true,
+	"internal/modm.LessThanVartime":        true,
+	"internal/modm.LessThanOrEqualVartime": true,
+	"internal/modm.IsZeroVartime":          true,
+	"internal/modm.IsOneVartime":           true,
+	"internal/modm.IsAtMost128bitsVartime": true,
+	"internal/ge25519.windowbEqual":        true,
+	"extra/x25519.checkBasepoint":          true,
 }
 
 // inOutFuncs: module callees whose first argument is read as well as written.
